@@ -71,6 +71,8 @@ fn powers_array(initial: Felt, alpha: Felt, n: u32) -> Vec<Felt> {
     let mut value = initial;
 
     for _ in 0..n {
+        #[cfg(swiftness_verif)]
+        swiftness_transcript::verif::tick("stark.powers", 1);
         array.push(value);
         value *= alpha;
     }
